@@ -63,6 +63,10 @@ use std::{
 /// Logging target for the file.
 const LOG_TARGET: &str = "litep2p::tcp::connection";
 
+#[cfg(litep2p_verif)]
+#[path = "../../verif/c01_tcp.rs"]
+pub(crate) mod verif_c01_tcp;
+
 #[derive(Debug)]
 pub struct NegotiatedSubstream {
     /// Substream direction.
